@@ -75,7 +75,26 @@ def q_to_float(A):
     return np.array(quaternion.as_float_array(A), dtype=np.float64)
 
 
-_LAYOUT_COUNTER = [0]
+# Cycling choices (memory layout, sparse storage variant, option carrier, ...) are driven by per-process counters.  The
+# fork pool hands jobs to whichever worker is free, so a counter's value at the start of a job would depend on scheduling
+# and a verdict at a rounding threshold would not be reproducible from the seed (DESIGN 10.5, soak 14).  par._call
+# therefore sets every registered counter from a checksum of the job's arguments before the job runs.
+PHASE_COUNTERS = []
+
+
+def register_counter(c):
+    PHASE_COUNTERS.append(c)
+    return c
+
+
+def set_phase(args):
+    import zlib
+    h = zlib.crc32(repr(args).encode("utf-8", "replace"))
+    for i, c in enumerate(PHASE_COUNTERS):
+        c[0] = (h >> (3 * i)) % 120
+
+
+_LAYOUT_COUNTER = register_counter([0])
 
 
 def q_from_float(F):
@@ -100,7 +119,7 @@ def q_from_float(F):
     return q
 
 
-_SPARSE_COUNTER = [0]
+_SPARSE_COUNTER = register_counter([0])
 SPARSE_VARIANTS = ("csr", "csc", "duplicate-slots", "explicit-zeros", "unsorted-indices", "narrow-dtype", "coo", "shared-plane-objects")
 
 
@@ -162,7 +181,7 @@ def sp_quat(F, variant=None):
     return lib().utils.SparseQuaternionMatrix(*[sp_plane(F[..., c], variant) for c in range(4)], F.shape[:2])
 
 
-_FLAYOUT_COUNTER = [0]
+_FLAYOUT_COUNTER = register_counter([0])
 
 
 def f_layout(a, byteorder_only=False):
@@ -243,7 +262,7 @@ def as_all_keyword(fn, a, kw):
     return (), k2
 
 
-_CARRIER = [0]
+_CARRIER = register_counter([0])
 
 
 def numpy_carriers(a, kw, zero_d=False):
